@@ -596,6 +596,210 @@ func c14History(st *c14State, inputs []c14Input, randomSeqs int, full, triples b
 	}
 }
 
+// c14Siblings: sequential histories over SIBLING objects. A memo or cache keyed on a lossy fold of the object
+// (two fields XOR-ed onto the same bits, a byte left out) is right for every single call and for unrelated
+// consecutive calls; it is wrong exactly when two consecutive calls are on objects that differ in the two or three
+// metrics that alias each other. For background objects B of every version: EVERY object A that differs from B in
+// exactly two metrics (every pair of metrics x every pair of other values; with triples: also in exactly three),
+// and the histories  Z,A (reference for A after an unrelated call)  then  B (B after A)  then  A (A after B):
+// every result must equal the reference obtained after the unrelated call Z. Single goroutine.
+func c14Siblings(st *c14State, backgrounds, tripleBackgrounds int) {
+	var nPairs, nTriples int64
+	for _, api := range probe.APIs {
+		v := api.Ver
+		r := gen.New(st.seed, "C14", "siblings", v.Name)
+		for b := 0; b < backgrounds; b++ {
+			var B spec.Assign
+			switch b {
+			case 0:
+				B = v.ZeroAssign()
+			case 1:
+				B = v.ZeroAssign()
+				for m, me := range v.Metrics {
+					B[m] = uint8(len(me.Values) - 1)
+				}
+			default:
+				B = gen.MixedAssign(r, v)
+			}
+			Z := gen.RandomAssign(r, v)
+			sB, sZ := v.Canonical(B), v.Canonical(Z)
+			sigParse(api, sZ)
+			refB := sigParse(api, sB)
+			if !strings.Contains(refB, " vec="+sB+" ") {
+				st.mismatch(Violation{Kind: "baseline-disagrees-with-canonical-form", Version: v.Name, Steps: parseSteps(sB), Expected: sB, Observed: refB})
+				continue
+			}
+			one := func(A spec.Assign) bool {
+				sA := v.Canonical(A)
+				sigParse(api, sZ)
+				refA := sigParse(api, sA)
+				gotB := sigParse(api, sB)
+				gotA := sigParse(api, sA)
+				st.events.Add(4)
+				if !strings.Contains(refA, " vec="+sA+" ") {
+					st.mismatch(Violation{Kind: "result-depends-on-history", Version: v.Name, Steps: []Step{{Op: "parse", S: sB}, {Op: "parse", S: sZ}, {Op: "parse", S: sA}}, Expected: "vec=" + sA, Observed: refA, Detail: map[string]any{"workload": "siblings"}})
+					return false
+				}
+				if gotB != refB {
+					st.mismatch(Violation{Kind: "result-depends-on-history", Version: v.Name, Steps: []Step{{Op: "parse", S: sA}, {Op: "parse", S: sB}}, Expected: refB, Observed: gotB, Detail: map[string]any{"workload": "siblings", "note": "the second object differs from the first in 2-3 metrics only"}})
+					return false
+				}
+				if gotA != refA {
+					st.mismatch(Violation{Kind: "result-depends-on-history", Version: v.Name, Steps: []Step{{Op: "parse", S: sB}, {Op: "parse", S: sA}}, Expected: refA, Observed: gotA, Detail: map[string]any{"workload": "siblings", "note": "the second object differs from the first in 2-3 metrics only"}})
+					return false
+				}
+				return true
+			}
+			n := v.N()
+			bad := 0
+			A := B.Clone()
+			for m1 := 0; m1 < n && bad < 3; m1++ {
+				for m2 := m1 + 1; m2 < n && bad < 3; m2++ {
+					for v1 := range v.Metrics[m1].Values {
+						if uint8(v1) == B[m1] {
+							continue
+						}
+						for v2 := range v.Metrics[m2].Values {
+							if uint8(v2) == B[m2] {
+								continue
+							}
+							A[m1], A[m2] = uint8(v1), uint8(v2)
+							if !one(A) {
+								bad++
+							}
+							nPairs++
+							if b < tripleBackgrounds {
+								for m3 := m2 + 1; m3 < n; m3++ {
+									for v3 := range v.Metrics[m3].Values {
+										if uint8(v3) == B[m3] {
+											continue
+										}
+										A[m3] = uint8(v3)
+										if !one(A) {
+											bad++
+										}
+										nTriples++
+									}
+									A[m3] = B[m3]
+								}
+							}
+						}
+					}
+					A[m1], A[m2] = B[m1], B[m2]
+				}
+			}
+		}
+	}
+	st.res.Counters["sibling_pairs"] = nPairs
+	st.res.Counters["sibling_triples"] = nTriples
+}
+
+// c14Hammer: maximum call rate on very few objects. Each phase releases G goroutines that do nothing but call ONE
+// method on the same 4 objects of one version in a tight loop and compare the result with the value obtained
+// quiescently beforehand -- no locks, no allocation, no bookkeeping of the harness in the loop, so that windows of a
+// few nanoseconds between individually atomic steps of a shared memo (lost update, ABA, check-then-act) are hit.
+func c14Hammer(st *c14State, shared [][]probe.Obj, G, procs, iters int, tag string) {
+	prev := runtime.GOMAXPROCS(procs)
+	defer runtime.GOMAXPROCS(prev)
+	r := gen.New(st.seed, "C14", "hammer", tag)
+	for vi, api := range probe.APIs {
+		if len(shared[vi]) < 4 {
+			continue
+		}
+		// 4 objects with pairwise different vectors
+		var objs []probe.Obj
+		seen := map[string]bool{}
+		for tries := 0; tries < 64 && len(objs) < 4; tries++ {
+			o := shared[vi][r.Intn(len(shared[vi]))]
+			vec, _ := probe.SafeVector(o)
+			if !seen[vec] {
+				seen[vec] = true
+				objs = append(objs, o)
+			}
+		}
+		if len(objs) < 2 {
+			continue
+		}
+		nScores := len(api.ScoreNames)
+		nOps := nScores + 2 // + Vector, Parse
+		for op := 0; op < nOps; op++ {
+			runtime.GC()
+			wantF := make([]float64, len(objs))
+			wantS := make([]string, len(objs))
+			srcs := make([]string, len(objs))
+			for i, o := range objs {
+				vec, _ := probe.SafeVector(o)
+				srcs[i] = strings.Clone(vec)
+				switch {
+				case op < nScores:
+					wantF[i], _ = probe.SafeScore(o, op)
+				case op == nScores:
+					wantS[i] = strings.Clone(vec)
+				default:
+					if po, err, _ := api.SafeParse(srcs[i]); err == nil && po != nil {
+						wantS[i] = po.Bytes()
+					}
+				}
+			}
+			opName := "Parse"
+			if op < nScores {
+				opName = api.ScoreNames[op]
+			} else if op == nScores {
+				opName = "Vector"
+			}
+			var wg sync.WaitGroup
+			var bad atomic.Int64
+			start := make(chan struct{})
+			for g := 0; g < G; g++ {
+				wg.Add(1)
+				go func(g int) {
+					defer wg.Done()
+					<-start
+					for it := 0; it < iters; it++ {
+						i := (it + g) % len(objs)
+						o := objs[i]
+						ok := true
+						var obs string
+						switch {
+						case op < nScores:
+							f, p := probe.SafeScore(o, op)
+							if p != nil || f != wantF[i] {
+								ok, obs = false, fmt.Sprint(f, p)
+							}
+						case op == nScores:
+							s, p := probe.SafeVector(o)
+							if p != nil || s != wantS[i] {
+								ok, obs = false, fmt.Sprint(s, p)
+							}
+						default:
+							po, err, p := api.SafeParse(srcs[i])
+							if p != nil || err != nil || po == nil || po.Bytes() != wantS[i] {
+								ok, obs = false, fmt.Sprint(po, err, p)
+							}
+						}
+						if !ok {
+							if bad.Add(1) <= 3 {
+								exp := wantS[i]
+								if op < nScores {
+									exp = fstr(wantF[i])
+								}
+								st.mismatch(Violation{Kind: "result-depends-on-concurrency-or-history", Version: api.Ver.Name, Steps: append(parseSteps(srcs[i]), Step{Op: "score"}), Expected: opName + " = " + exp, Observed: obs,
+									Detail: map[string]any{"workload": "hammer", "method": opName, "goroutines": G, "gomaxprocs": procs, "note": "needs real parallelism: the replay re-executes the call alone"}})
+							}
+							return
+						}
+					}
+				}(g)
+			}
+			close(start)
+			wg.Wait()
+			st.events.Add(int64(G) * int64(iters))
+			st.res.Counters["hammer_calls"] += int64(G) * int64(iters)
+			st.res.Counters["hammer_phases"]++
+		}
+	}
+}
+
 // C14Sig prints the signature of one ParseVector call made as the FIRST call of a fresh process.
 func C14Sig(ver int, hexInput string) {
 	b, err := hex.DecodeString(hexInput)
@@ -926,7 +1130,25 @@ func C14Child(mode, tier string, seed int64) {
 		// sequential histories short there (complete pairs only without the yield pass)
 		c14History(st, inputs, 200/scale+10, mode == "race", false)
 	}
+	if mode == "plain" || mode == "asan" {
+		if quick {
+			c14Siblings(st, 3, 1)
+		} else {
+			c14Siblings(st, 12, 3)
+		}
+	}
 	for rep := 0; rep < reps; rep++ {
+		{
+			iters := 100000 / scale / scale
+			if mode == "asan" {
+				iters = 20000
+			}
+			if iters < 250 {
+				iters = 250
+			}
+			pc := [][2]int{{16, 16}, {8, 4}, {4, 2}, {32, 16}, {3, 3}}[rep%5]
+			c14Hammer(st, shared, pc[0], pc[1], iters, fmt.Sprintf("%s-rep%d", mode, rep))
+		}
 		for _, cfg := range [][2]int{{4, 2}, {16, 16}, {64, 16}, {16, 2}, {8, 1}} {
 			ops := 24000 / scale / cfg[0] * 4
 			if !quick {
@@ -1221,7 +1443,7 @@ func CheckC14(c *Ctx) {
 		totalEvents += res.Events + coldEvents
 		distinct += res.ContextPairs
 		summary[b.mode] = map[string]any{"events": res.Events, "distinct_keys": res.Keys, "keys_seen_by_2plus_goroutines": res.KeysMulti, "distinct_(previous,current)_context_pairs": res.ContextPairs,
-			"yields_taken": res.Yields, "strings_reverified": res.StringsRecheck, "sequences": res.Sequences, "pool_reuse_sequences_v2": res.PoolReuse, "race_report_blocks": raw, "race_reports_deduplicated": len(dedup),
+			"yields_taken": res.Yields, "sibling_pairs": res.Counters["sibling_pairs"], "sibling_triples": res.Counters["sibling_triples"], "hammer_calls": res.Counters["hammer_calls"], "hammer_phases": res.Counters["hammer_phases"], "strings_reverified": res.StringsRecheck, "sequences": res.Sequences, "pool_reuse_sequences_v2": res.PoolReuse, "race_report_blocks": raw, "race_reports_deduplicated": len(dedup),
 			"configurations": res.Configs, "wall_s": time.Since(t0).Seconds(), "inputs": res.Counters["inputs"], "fresh_process_baselines": res.Counters["fresh_process_baselines"],
 			"cold_start_processes": coldProcs, "cold_start_first_use_calls": coldEvents}
 		if b.mode == "race-instr" {
@@ -1268,7 +1490,7 @@ func CheckC14(c *Ctx) {
 		c.Extra["yield_points_inserted"] = s
 	}
 	c.SetReport(Report{
-		Rule:        "four builds of the CURRENT tree (plain; -race; -race after the AST yield-point pass that inserts seeded Gosched/sleep calls at loop heads and after call statements of go-cvss; -asan in thorough). In each: (1) baselines of ~40 inputs per version computed after forced double GC in forward and reverse order (must agree with each other, with the grammar/canonical-form oracles and -- plain build -- with the same call made as the first call of a fresh process); (2) sequential histories hostile to pooled scratch buffers under GOMAXPROCS(1)+GC off: ALL ordered pairs per version, all triples for v2 (1/7 for others), random sequences of 2-50 calls across versions -- every result must equal its baseline; (3) goroutines {4,8,16,64} x GOMAXPROCS {1,2,16} hammering the small shared input set, plus a hot-keys phase per repetition over only 2-4 inputs (parse, everything observable of shared read-only objects, Set on local copies, parse-mutate-parse, Rating) with results compared to baselines; (0) cold concurrent starts: short-lived processes in which NO go-cvss call has happened yet release 8-24 goroutines together, round by round, on the same parse + score + Vector call (550 first-use rounds each), judged against the spec oracles; (4) every Vector() string kept next to an immediate clone and re-compared later, forced GC every 10k events; (5) elapsed time: one plain-build process goes idle and wakes at process ages 0.5/1.5/3.5/7.5/15.5/47 s (thorough: also 110/300/910 s), each time making every alphabet call in a rotated order, re-reading the objects parsed at the start and re-setting every metric of clones to its own value -- all must equal the baselines (time is the stimulus, equality the verdict). Race reports are counted from the GORACE log (never from the exit code) and de-duplicated by first-frame pair. evaluations = events; distinct = distinct (previous call, current call) context pairs summed over builds",
+		Rule:        "four builds of the CURRENT tree (plain; -race; -race after the AST yield-point pass that inserts seeded Gosched/sleep calls at loop heads and after call statements of go-cvss; -asan in thorough). In each: (1) baselines of ~40 inputs per version computed after forced double GC in forward and reverse order (must agree with each other, with the grammar/canonical-form oracles and -- plain build -- with the same call made as the first call of a fresh process); (2) sequential histories hostile to pooled scratch buffers under GOMAXPROCS(1)+GC off: ALL ordered pairs per version, all triples for v2 (1/7 for others), random sequences of 2-50 calls across versions -- every result must equal its baseline; (3) goroutines {4,8,16,64} x GOMAXPROCS {1,2,16} hammering the small shared input set, plus a hot-keys phase per repetition over only 2-4 inputs (parse, everything observable of shared read-only objects, Set on local copies, parse-mutate-parse, Rating) with results compared to baselines; (0) cold concurrent starts: short-lived processes in which NO go-cvss call has happened yet release 8-24 goroutines together, round by round, on the same parse + score + Vector call (550 first-use rounds each), judged against the spec oracles; (3b) hammer phases: G goroutines calling ONE method on the same 4 objects in a tight loop with nothing of the harness in between (one phase per scoring method, Vector and ParseVector, per version and repetition; G x GOMAXPROCS in {16x16, 8x4, 4x2, 32x16, 3x3}), each result compared with the quiescent value; (2b) sibling histories (plain, asan): for 3 (thorough 12) background objects per version EVERY object differing from it in exactly two metrics (one background, thorough 3: also exactly three), in the histories unrelated,A / A,B / B,A -- results must equal the reference after the unrelated call; (4) every Vector() string kept next to an immediate clone and re-compared later, forced GC every 10k events; (5) elapsed time: one plain-build process goes idle and wakes at process ages 0.5/1.5/3.5/7.5/15.5/47 s (thorough: also 110/300/910 s), each time making every alphabet call in a rotated order, re-reading the objects parsed at the start and re-setting every metric of clones to its own value -- all must equal the baselines (time is the stimulus, equality the verdict). Race reports are counted from the GORACE log (never from the exit code) and de-duplicated by first-frame pair. evaluations = events; distinct = distinct (previous call, current call) context pairs summed over builds",
 		DistinctN:   distinct,
 		Assumptions: []string{"the race detector sees only executed pairs of accesses; interleavings are explored, not enumerated", "dependence on elapsed time is observed only up to the idle gaps lived through (31.5 s quick, 10 min thorough); dependence on the environment (variables, files, clock date) is not driven", "in the plain build every baseline is also recomputed as the first call of a freshly started process; the sanitizer builds rely on the double-GC baseline"},
 	})
